@@ -1,6 +1,6 @@
 import Blue.Model.BitVec
 /-! `scrunch::bit_vector::cf_rrr`: the one place where an implementation's own `rank` differed from
-    the trait's reference semantics (the cf_rrr defect found by C19, repaired by `fixes/scrunch-cf-rrr-rank-at-len.diff`).
+    the trait's reference semantics (the cf_rrr defect found by C19, repaired by `/repo fix bff6c23`).
     Kept so that the known input stays a theorem after the repair. -/
 namespace Blue.BitVec
 
